@@ -678,6 +678,7 @@ def run(program, res, tier):
     from . import c17 as _c17
     _c17.record_sort_null_position(program, Relabel(res, {"*": "C03-S4"}), rule="C03-S4")
     _c17._s6_polars_stacking(program, Relabel(res, {"*": "C03-S3"}))
+    _c17.polars_spec_order_rule(program, Relabel(res, {"*": "C03-S6"}), rule="C03-S6")
     res.rule("C03-S7", "sibling methods of the two data models agree on returning a value")
     _s7_sibling_returns(program, res)
     from . import c05
